@@ -347,6 +347,7 @@ RULES = [
     ("X-LITVALUE", "a literal evaluates to the text written in the query (patterns, size literals, arguments) [shared]", lambda ctx: __import__("extra2").literal_is_its_text(ctx)),
     ("C02-R4", "quoted literals are never resolved as column / function names [shared with C02]", lambda ctx: __import__("c02").r4(ctx)),
     ("X-LEXEMS", "every lexem but an empty quoted string reaches the grammar (a blank string is a value) [shared]", lambda ctx: __import__("extra2").lexems_are_kept(ctx)),
+    ("C02-R3", "every documented operator spelling denotes its operator (Op::from evaluated on all spellings x letter cases) [shared with C02]", lambda ctx: __import__("c02").r3(ctx)),
 ]
 
 EXPLANATION = (
